@@ -245,8 +245,8 @@ impl Monitor for C06 {
         N_DIRECTED
             + match t {
                 Tier::Tiny => 6,
-                Tier::Quick => 6_000,
-                Tier::Thorough => 80_000,
+                Tier::Quick => 360000,
+                Tier::Thorough => 3600000,
             }
     }
     fn rule(&self) -> &'static str {
